@@ -5,7 +5,7 @@ import numpy as np, pandas as pd
 from core import Result
 import proto, gen, implutil
 
-THEOREMS = ['C14_fit_no_stale_state', 'C14_shorthand', 'C14_reduce', 'C14_history_independence', 'C14_settings_history', 'C14_edges', 'C14_attr', 'C14_failed_fit', 'C14_table_kept', 'C14_plot', 'C14_translated_methods', 'C14_rebound_slots', 'C14_group_mirror', 'C14_group_model_refit', 'C14_group_settings', 'C14_routing', 'C14_fit_is_pipeline', 'C14_edges_on_pipeline', 'C14_group_fit_per_signal']
+THEOREMS = ['C14_fit_no_stale_state', 'C14_shorthand', 'C14_reduce', 'C14_history_independence', 'C14_settings_history', 'C14_edges', 'C14_attr', 'C14_failed_fit', 'C14_table_kept', 'C14_plot', 'C14_translated_methods', 'C14_rebound_slots', 'C14_group_mirror', 'C14_group_model_refit', 'C14_group_settings', 'C14_routing', 'C14_group_routing', 'C14_fit_is_pipeline', 'C14_edges_on_pipeline', 'C14_group_fit_per_signal']
 RULE = ("random histories (4..10 operations) on one Bycycle object: construct (both burst methods, both centrings, thresholds given with full or SHORTHAND names or None, "
         "find_extrema_kwargs, return_samples) / fit on one of three signals / recompute_edges(reduction) / load / in-place threshold edit / threshold rebinding / burst option edit / "
         "attribute access / plot; after every fit df_features must equal compute_features called on FRESH copies of the object's current settings (shorthand expanded), after "
